@@ -1,9 +1,14 @@
 (* The Gallina text regenerated from the current Rust source of src/internal/incompatibility.rs by
    tools/translate.py (coq/Gen/IncompatCtors.v) — the external constructors not_root, custom_version and
    from_dependency (including the treatment of an empty set and of a dependency of a package on itself) — is equal
-   to the hand-written model.  An edit of one of these constructors makes this proof fail. *)
-From Coq Require Import List NArith.
-From PG Require Import Model.VS Model.Term Model.Solver Gen.IncompatCtors.
+   to the hand-written model.  An edit of one of these constructors makes this proof fail.
+
+   Likewise for coq/Gen/IncompatMethods.v: no_versions, is_terminal, merge_dependents and prior_cause, translated
+   statement by statement from the parsed bodies (let, early return under if, `?`, method chains, closures, struct
+   literal) into the panic monad of Model/Solver.v. *)
+From Coq Require Import List NArith Bool.
+From PG Require Import Model.VS Model.Term Model.Solver Gen.IncompatCtors Gen.IncompatMethods.
+Import ListNotations.
 
 Section GenIncEq.
   Context {VS Vr : Type} (O : VSOps VS Vr).
@@ -18,4 +23,67 @@ Section GenIncEq.
     - intros p v m. reflexivity.
     - intros p vs [q s]. reflexivity.
   Qed.
+
+  (* `iter().filter(|(p, _)| p != &package)` of the source is the [remove] of the model *)
+  Lemma filter_ne_remove : forall {A} (p : pkg) (m : list (pkg * A)),
+    filter (fun '(q, _) => negb (N.eqb q p)) m = remove p m.
+  Proof.
+    intros A p m. induction m as [|[q a] r IH]; simpl; [reflexivity|].
+    rewrite (N.eqb_sym q p). destruct (N.eqb p q); simpl; rewrite IH; reflexivity.
+  Qed.
+
+  (* is_terminal is translated in the panic monad (the source calls unwrap): it never panics *)
+  Theorem gen_is_terminal_never_panics : forall (i : @incompat VS Vr) r v,
+    gen_is_terminal_res O i r v = Good (is_terminal O i r v).
+  Proof.
+    intros [ts k] r v. unfold gen_is_terminal_res, is_terminal. simpl.
+    destruct ts as [|[p t] [|e l]]; reflexivity.
+  Qed.
+
+  Theorem incompat_methods_match_source :
+    (forall p (t : term VS), gen_no_versions (Vr := Vr) p t = no_versions p t)
+    /\ (forall i r v, gen_is_terminal O i r v = is_terminal O i r v)
+    /\ (forall a b, gen_merge_dependents O a b = merge_dependents O a b)
+    /\ (forall i j ti tj p, gen_prior_cause O i j ti tj p = prior_cause O i j ti tj p).
+  Proof.
+    split; [|split; [|split]].
+    - intros p t. reflexivity.
+    - intros i r v. unfold gen_is_terminal. rewrite gen_is_terminal_never_panics. reflexivity.
+    - intros a b. unfold gen_merge_dependents, merge_dependents.
+      destruct (as_dependency a) as [[p1 p2]|]; [|reflexivity].
+      destruct (as_dependency b) as [[q1 q2]|]; reflexivity.
+    - intros i j ti tj p. unfold gen_prior_cause, prior_cause.
+      destruct (get p ti) as [t1|]; [|reflexivity]. simpl.
+      rewrite filter_ne_remove.
+      destruct (get p tj) as [t2|]; [|reflexivity]. simpl.
+      destruct (t_eqb O (t_union O t1 t2) (t_any O)); reflexivity.
+  Qed.
+
+  (* gen_merge_dependents binds the panicking operations of one statement in a canonical order (all `.unwrap()` first, then
+     unwrap_positive / unwrap_negative, then map_or with a panicking closure) — the order of the model.  Rust evaluates them
+     depth first; gen_merge_dependents_src is the same translation in that order.  The two agree on every value and on
+     WHETHER there is a panic; they can differ only in which panic site is reported. *)
+  Definition same_up_to_site {A} (x y : res A) : Prop :=
+    match x, y with
+    | Good a, Good b => a = b
+    | Panic _, Panic _ => True
+    | _, _ => False
+    end.
+
+  Theorem merge_dependents_source_order : forall a b,
+    same_up_to_site (gen_merge_dependents_src O a b) (merge_dependents O a b).
+  Proof.
+    intros a b. unfold gen_merge_dependents_src, merge_dependents.
+    destruct (as_dependency a) as [[p1 p2]|]; [|reflexivity].
+    destruct (as_dependency b) as [[q1 q2]|]; [|reflexivity]. simpl.
+    destruct (negb (N.eqb p1 q1 && N.eqb p2 q2)); [reflexivity|].
+    destruct (N.eqb p1 p2); [reflexivity|].
+    destruct (negb (opt_term_eqb O (get p2 (terms a)) (get p2 (terms b)))); [reflexivity|].
+    destruct (get p1 (terms a)) as [[s1|s1]|]; destruct (get p1 (terms b)) as [[s2|s2]|]; simpl; try exact I;
+      destruct (get p2 (terms a)) as [[d|d]|]; simpl; try exact I; reflexivity.
+  Qed.
 End GenIncEq.
+
+Print Assumptions incompat_methods_match_source.
+Print Assumptions gen_is_terminal_never_panics.
+Print Assumptions merge_dependents_source_order.
